@@ -79,11 +79,11 @@ def _baseline(rng, small=False, lopsided=0.0, third_party=0.08):
     return bd, bg, bo
 
 
-def _final_results(rng, bd, bg, bo, x1, state_shift, swing_scale=1.0):
+def _final_results(rng, bd, bg, bo, x1, state_shift, swing_scale=1.0, tf_mu=0.05):
     """Final (100%) results of a unit with an ordinary turnout factor (strictly inside (0.5, 2) for both
     total and two-party turnout)."""
     for _ in range(8):
-        tf = float(np.clip(np.exp(rng.normal(0.05 + 0.04 * x1, 0.12 * swing_scale)), 0.68, 1.6))
+        tf = float(np.clip(np.exp(rng.normal(tf_mu + 0.04 * x1, 0.12 * swing_scale)), 0.68, 1.6))
         d = float(np.clip(rng.normal(0.02 + state_shift + 0.03 * x1, 0.05 * swing_scale), -0.25, 0.25))
         rd = int(round(bd * tf * (1 + d)))
         rg = int(round(bg * tf * (1 - d)))
@@ -128,6 +128,7 @@ def election_case(
     state_blocklist_odds=8,
     lopsided=0.0,
     third_party=(0.08, 0.08, 0.08, 1.2),
+    turnout_surge=(0.05, 0.05, 0.05, 0.33, -0.2),  # mean log turnout factor of the election (0.33: everybody near x1.4)
 ):
     pi = draw(st.sampled_from(list(estimators)))
     office = draw(st.sampled_from(list(offices)))
@@ -258,6 +259,7 @@ def election_case(
     state_shift = {s: float(srng.normal(0, 0.04)) for s in states}
     hard_factor = draw(st.sampled_from([3, 8, 40]))
     third = draw(st.sampled_from(list(third_party)))  # size of the third-party vote relative to the two-party vote
+    tf_mu = draw(st.sampled_from(list(turnout_surge)))
 
     per_county_counter = {}
     blocklist = []
@@ -274,7 +276,7 @@ def election_case(
         if status in (Z, ZN, ZA, BZ, BZN):
             # zero baseline: zero turnout (vote estimands) and zero two-party vote (margin)
             bd, bg, bo = 0, 0, 0
-        fd, fg, fo = _final_results(rng, bd, bg, bo, x1, state_shift[s], swing_scale)
+        fd, fg, fo = _final_results(rng, bd, bg, bo, x1, state_shift[s], swing_scale, tf_mu)
         feed = None
         if status in (R, RB, B, Z, BZ):
             pev = thr if status == RB else draw(st.sampled_from([100, 100, 100, max(thr, 99.5), 105])) if thr <= 100 else thr
